@@ -57,15 +57,40 @@ Proof. apply unhexlify_hexlify. Qed.
 Lemma lx_b2lx b : py_lx (py_b2lx b) = Ok b.
 Proof. unfold py_lx, py_b2lx. rewrite unhexlify_hexlify. cbn [bind]. rewrite rev_involutive. reflexivity. Qed.
 
+(* a boolean property of bytes holds for all 256 of them if it holds on the enumeration *)
+Lemma byte_forall (P : byte -> bool) :
+  forallb P (map (fun n => z2b (Z.of_nat n)) (seq 0 256)) = true -> forall c, P c = true.
+Proof.
+  intros H c. rewrite forallb_forall in H. apply H. apply in_map_iff.
+  exists (Z.to_nat (b2z c)). pose proof (b2z_range c). split.
+  - rewrite Z2Nat.id by lia. apply z2b_b2z.
+  - apply in_seq. lia.
+Qed.
+
 (* per character: a hex digit decodes to a nibble whose lower-case digit is the lowered char *)
+Definition hexchar_ok (c : byte) : bool :=
+  match hexval c with
+  | Some a => is_hexchar c && (0 <=? a) && (a <? 16) && Byte.eqb (hexdigit a) (lower_char c)
+  | None => negb (is_hexchar c)
+  end.
+Lemma hexchar_ok_all c : hexchar_ok c = true.
+Proof. apply byte_forall. vm_compute. reflexivity. Qed.
+
 Lemma hexval_lower c : is_hexchar c = true ->
   exists a, hexval c = Some a /\ 0 <= a < 16 /\ hexdigit a = lower_char c.
 Proof.
-  destruct c; vm_compute; intros H; try discriminate H;
-    eexists; (split; [reflexivity|]); (split; [split; [intros X; discriminate X | reflexivity] | reflexivity]).
+  intros H. pose proof (hexchar_ok_all c) as K. unfold hexchar_ok in K.
+  destruct (hexval c) as [a|].
+  - exists a. split; [reflexivity|]. apply andb_true_iff in K as [K E]. apply andb_true_iff in K as [K U].
+    apply andb_true_iff in K as [_ L]. apply Z.leb_le in L. apply Z.ltb_lt in U.
+    apply Byte.byte_dec_bl in E. split; [lia|exact E].
+  - rewrite H in K. discriminate K.
 Qed.
 Lemma hexval_some c a : hexval c = Some a -> is_hexchar c = true.
-Proof. destruct c; vm_compute; intros H; try discriminate H; reflexivity. Qed.
+Proof.
+  intros H. pose proof (hexchar_ok_all c) as K. unfold hexchar_ok in K. rewrite H in K.
+  apply andb_true_iff in K as [K _]. apply andb_true_iff in K as [K _]. apply andb_true_iff in K as [K _]. exact K.
+Qed.
 
 Lemma z2b_pair a b : 0 <= a < 16 -> 0 <= b < 16 ->
   b2z (z2b (16 * a + b)) / 16 = a /\ b2z (z2b (16 * a + b)) mod 16 = b.
